@@ -4,7 +4,7 @@
 (* fault line with the pseudo-bytes "LO" and "HI" (stripped before use).    *)
 (* The expected line, source line and column range come from JqText.        *)
 EXTENDS JqText
-CONSTANTS MaxPre, MaxPost
+CONSTANTS MaxPre, MaxPost, LeanFrom
 
 E9 == <<"C3", "A9">>   \* the two bytes of U+00E9
 
@@ -111,8 +111,10 @@ vars == <<pre, fi, post, lastNL, done>>
 
 \* two phases (Init: fault and lines before; Next: lines after) so that the
 \* evaluation is spread over TLC's workers
-Init == /\ pre \in SeqsUpTo(1..Len(Fillers), MaxPre)
-        /\ fi \in 1..Len(Faults)
+\* faults from index LeanFrom on run with at most one filler line before (the catalogue grew; the first
+\* entries keep the full set of surroundings)
+Init == /\ fi \in 1..Len(Faults)
+        /\ pre \in SeqsUpTo(1..Len(Fillers), IF fi >= LeanFrom THEN 1 ELSE MaxPre)
         /\ post = <<>> /\ lastNL = FALSE /\ done = FALSE
 Next == /\ ~done /\ done' = TRUE
         /\ post' \in SeqsUpTo(1..Len(Fillers), MaxPost)
